@@ -271,6 +271,8 @@ class Terms(object):
                 pass
         if base[0] in ("tuple", "list") and idx[0] == "c" and isinstance(idx[1], int) and -len(base) + 1 <= idx[1] < len(base) - 1:
             return base[1:][idx[1]]
+        if idx[0] == "c" and isinstance(idx[1], int) and not isinstance(idx[1], bool) and idx[1] >= 0:
+            return ("proj", base, idx[1])        # x[0] and tuple-unpacking position 0 are the same value
         return ("sub", base, idx)
 
     def binop(self, op, a, b):
@@ -454,7 +456,17 @@ class Terms(object):
         # builtins with meaning
         ext = cs.ext if cs is not None else None
         if ext is None and isinstance(f, ast.Name) and (cs is None or not cs.callees):
-            ext = "builtins." + f.id if f.id not in env else None
+            import builtins as _b
+            if f.id in env:
+                ext = None
+            elif hasattr(_b, f.id) and f.id not in func.mod.imports and f.id not in func.mod.assigns:
+                ext = "builtins." + f.id
+            else:
+                r = ctx.pkg.resolve_import(func.mod, f.id)
+                if r and r[0] == "pkgattr":
+                    ext = "%s.%s" % (r[1].name, r[2])
+                elif f.id in func.mod.assigns:
+                    ext = "%s.%s" % (func.mod.name, f.id)
         if ext == "builtins.len" and len(args) == 1:
             a = args[0]
             if a[0] == "c":
